@@ -385,6 +385,8 @@ class Lowering:
                 return name
             if n == 'std::initializer_list':
                 return self.ctype(T('tmpl', 'std::span', args=[t.args[0]]))
+            if n in ('std::atomic', 'std::__atomic_base'):
+                return self.ctype(t.args[0])      # sequential semantics: an atomic is its value
             if n in ('std::mersenne_twister_engine', 'std::uniform_int_distribution'):
                 return 'cxx_rng'   # opaque: every draw is an arbitrary value of the result type (PRNG not modelled)
         raise LoweringError(f'no C type for {t!r}')
@@ -489,7 +491,7 @@ class Lowering:
                     'std::chrono::duration': 'duration', 'std::chrono::time_point': 'time_point',
                     'std::unordered_map': 'map', 'std::map': 'map', 'std::pair': 'pair', 'enum': 'enum',
                     'iter': 'iter', 'std::initializer_list': 'span', 'std::variant': 'variant',
-                    'std::mersenne_twister_engine': 'rng', 'std::uniform_int_distribution': 'rng'}.get(t.name, t.name)
+                    'std::mersenne_twister_engine': 'rng', 'std::uniform_int_distribution': 'rng', 'std::atomic': 'atomic', 'std::__atomic_base': 'atomic'}.get(t.name, t.name)
         if t.kind == 'rec':
             return 'rec'
         return t.kind
